@@ -1,4 +1,5 @@
 import Sop.Model.RegistryMap
+import Sop.Lemmas.RegistryRmw
 /-!
 # C21 — the on-disk registry behaves as a map from id to handle
 
@@ -551,5 +552,183 @@ example : run { md := 1 } St.init witness = [.ok, .ok, .ok, .ok, .ok, .got none]
 set_option maxRecDepth 8000 in
 /-- non-vacuity of the side condition and of the invariant: a run with collisions that never reports `full` -/
 example : Out.full ∉ run { md := 1 } St.init witness := by decide
+
+
+/-! ## several writers: the block read-modify-write of `updateFileBlockRegion`
+
+`Sop.RegistryMW.Rmw`: writers of one block, one transition per call on the lock cache (`DualLock`, `Unlock`) or on
+the segment file (`ReadAt`, `WriteAt` of the whole block). A schedule is any list of writer indices. -/
+
+open Sop.RegistryMW
+
+/-- Full-strength statement about one block, for the lock key chosen by `perSlot` (`false`: the block — the code;
+`true`: the slot): whatever the number of writers, their slots and values, the block and the schedule, once every
+writer has returned the block is the initial block with EVERY writer's change, applied in the order in which the
+writers were granted the lock (each exactly once). -/
+def Statement_C21_block (perSlot : Bool) (R : Type) : Prop :=
+  ∀ (prog : List (Nat × Option R)) (b0 : List (Option R)) (sch : List Nat),
+    let s := Rmw.run (Rmw.init perSlot prog b0) sch
+    Rmw.allDone s = true →
+      s.blk = Rmw.applyAll (Rmw.init perSlot prog b0).ws b0 s.acq ∧ s.acq.Nodup ∧ ∀ i, i ∈ s.acq ↔ i < prog.length
+
+/-- at every point of every schedule (not only at the end) the invariant of `Sop/Lemmas/RegistryRmw.lean` holds -/
+theorem C21_block_inv {R : Type} (prog : List (Nat × Option R)) (b0 : List (Option R)) (sch : List Nat) :
+    Rmw.Inv (Rmw.init false prog b0).ws b0 0 (Rmw.run (Rmw.init false prog b0) sch) := by
+  apply Rmw.inv_run
+  apply Rmw.inv_init _ _ _ _ rfl
+  · intro w hw; simp only [Rmw.init, List.mem_map] at hw; obtain ⟨p, _, rfl⟩ := hw; rfl
+  · intro w hw; simp only [Rmw.init, List.mem_map] at hw; obtain ⟨p, _, rfl⟩ := hw; rfl
+
+/-- with the lock on the block around read..write, every interleaving of any number of writers is linearizable to
+the order of lock acquisition: nobody's acknowledged change is lost -/
+theorem C21_block_lock_linearizable {R : Type} : Statement_C21_block false R := by
+  intro prog b0 sch s hd
+  obtain ⟨h1, h2, h3, _⟩ := Rmw.done_of_inv (C21_block_inv prog b0 sch) hd
+  refine ⟨h1, h2, ?_⟩
+  intro i; rw [h3 i]; simp [Rmw.init]
+
+/-- the lost update of the seeded change: two writers of DIFFERENT slots of one block, each locking its slot.
+Writer 0 locks and reads; writer 1 locks, reads, writes, unlocks; writer 0 writes back the block it read. -/
+def lostUpdateSchedule : List Nat := [0, 0, 1, 1, 1, 1, 0, 0]
+
+theorem C21_slot_lock_lost_update :
+    let s := Rmw.run (Rmw.init true [(0, some 7), (1, some 8)] [none, none]) lostUpdateSchedule
+    Rmw.allDone s = true ∧ s.acq = [0, 1] ∧ s.blk = [some 7, none] := by
+  decide +kernel
+
+theorem C21_slot_lock_counterexample : ¬ Statement_C21_block true Nat := by
+  intro h
+  have := (h [(0, some 7), (1, some 8)] [none, none] lostUpdateSchedule (by decide +kernel)).1
+  revert this
+  decide +kernel
+
+/-- the same schedule under the block lock: writer 1 is refused until writer 0 has unlocked -/
+example : (Rmw.run (Rmw.init false [(0, some 7), (1, some 8)] [none, none]) lostUpdateSchedule).blk = [some 7, none] ∧
+    (Rmw.run (Rmw.init false [(0, some 7), (1, some 8)] [none, none]) (lostUpdateSchedule ++ [1, 1, 1, 1])).blk = [some 7, some 8] := by
+  decide +kernel
+
+theorem perm_two (l : List Nat) (hn : l.Nodup) (hm : ∀ i, i ∈ l ↔ i < 2) : l = [0, 1] ∨ l = [1, 0] := by
+  match l, hn, hm with
+  | [], _, hm => exact absurd ((hm 0).2 (by decide)) (by simp)
+  | [a], _, hm =>
+    have h0 := (hm 0).2 (by decide)
+    have h1 := (hm 1).2 (by decide)
+    simp at h0 h1; omega
+  | [a, b], hn, hm =>
+    have ha := (hm a).1 (by simp)
+    have hb := (hm b).1 (by simp)
+    have hab : a ≠ b := by simpa using hn
+    have : (a = 0 ∧ b = 1) ∨ (a = 1 ∧ b = 0) := by omega
+    rcases this with ⟨rfl, rfl⟩ | ⟨rfl, rfl⟩ <;> simp
+  | a :: b :: c :: t, hn, hm =>
+    have ha := (hm a).1 (by simp)
+    have hb := (hm b).1 (by simp)
+    have hc := (hm c).1 (by simp)
+    simp only [List.nodup_cons, List.mem_cons, not_or] at hn
+    omega
+
+/-- two writers, different slots of the same block, any interleaving: both acknowledged changes are in the block and
+no other slot moved -/
+theorem C21_two_writers_both_kept {R : Type} (s0 s1 : Nat) (v0 v1 : Option R) (b0 : List (Option R)) (sch : List Nat)
+    (hne : s0 ≠ s1) (h0 : s0 < b0.length) (h1 : s1 < b0.length)
+    (hd : Rmw.allDone (Rmw.run (Rmw.init false [(s0, v0), (s1, v1)] b0) sch) = true) :
+    let blk := (Rmw.run (Rmw.init false [(s0, v0), (s1, v1)] b0) sch).blk
+    blk[s0]? = some v0 ∧ blk[s1]? = some v1 ∧ ∀ t, t ≠ s0 → t ≠ s1 → blk[t]? = b0[t]? := by
+  obtain ⟨hb, hn, hm⟩ := C21_block_lock_linearizable [(s0, v0), (s1, v1)] b0 sch hd
+  intro blk
+  have hblk : blk = (b0.set s0 v0).set s1 v1 ∨ blk = (b0.set s1 v1).set s0 v0 := by
+    rcases perm_two _ hn hm with e | e
+    · left; show (Rmw.run _ sch).blk = _; rw [hb, e]; simp [Rmw.applyAll, Rmw.init]
+    · right; show (Rmw.run _ sch).blk = _; rw [hb, e]; simp [Rmw.applyAll, Rmw.init]
+  have hne' : s1 ≠ s0 := fun e => hne e.symm
+  have other : ∀ (b : List (Option R)) (a c : Nat) (x y : Option R) (t : Nat), t ≠ a → t ≠ c →
+      ((b.set a x).set c y)[t]? = b[t]? := by
+    intro b a c x y t hta htc
+    rw [List.getElem?_set_ne (fun e => htc e.symm), List.getElem?_set_ne (fun e => hta e.symm)]
+  rcases hblk with e | e <;> rw [e]
+  · refine ⟨?_, ?_, fun t h0' h1' => other b0 s0 s1 v0 v1 t h0' h1'⟩
+    · rw [List.getElem?_set_ne hne', List.getElem?_set_self h0]
+    · rw [List.getElem?_set_self (by simpa using h1)]
+  · refine ⟨?_, ?_, fun t h0' h1' => other b0 s1 s0 v1 v0 t h1' h0'⟩
+    · rw [List.getElem?_set_self (by simpa using h0)]
+    · rw [List.getElem?_set_ne hne, List.getElem?_set_self h1]
+
+/-- two writers of the SAME slot: the value of the writer that was granted the lock last stays -/
+theorem C21_same_slot_last_locker_wins {R : Type} (s0 : Nat) (v0 v1 : Option R) (b0 : List (Option R)) (sch : List Nat)
+    (h0 : s0 < b0.length)
+    (hd : Rmw.allDone (Rmw.run (Rmw.init false [(s0, v0), (s0, v1)] b0) sch) = true) :
+    let s := Rmw.run (Rmw.init false [(s0, v0), (s0, v1)] b0) sch
+    (s.acq = [0, 1] ∧ s.blk[s0]? = some v1) ∨ (s.acq = [1, 0] ∧ s.blk[s0]? = some v0) := by
+  obtain ⟨hb, hn, hm⟩ := C21_block_lock_linearizable [(s0, v0), (s0, v1)] b0 sch hd
+  intro s
+  rcases perm_two _ hn hm with e | e
+  · left; refine ⟨e, ?_⟩; show (Rmw.run _ sch).blk[s0]? = _; rw [hb, e]; simp [Rmw.applyAll, Rmw.init, h0]
+  · right; refine ⟨e, ?_⟩; show (Rmw.run _ sch).blk[s0]? = _; rw [hb, e]; simp [Rmw.applyAll, Rmw.init, h0]
+
+/-- nobody waits for ever (block lock): whoever holds the lock unlocks within three calls of its own, and a writer
+that finds the lock free returns within four calls of its own, leaving it free -/
+theorem C21_block_lock_progress {R : Type} (prog : List (Nat × Option R)) (b0 : List (Option R)) (sch : List Nat) :
+    let s := Rmw.run (Rmw.init false prog b0) sch
+    (∀ h, s.locks 0 = some h → ∃ n, n ≤ 3 ∧ (Rmw.run s (List.replicate n h)).locks 0 = none) ∧
+    (s.locks 0 = none → ∀ i, i < prog.length → ∃ n, n ≤ 4 ∧ (Rmw.run s (List.replicate n i)).locks 0 = none ∧
+      ∃ w', (Rmw.run s (List.replicate n i)).ws[i]? = some w' ∧ w'.pc = .done) := by
+  intro s
+  have hi := C21_block_inv prog b0 sch
+  refine ⟨fun h hh => Rmw.holder_finishes hi h hh, ?_⟩
+  intro hfree i hlt
+  have hlen : i < s.ws.length := by rw [hi.prog.1]; simpa [Rmw.init] using hlt
+  exact Rmw.solo_finishes hi i s.ws[i] (List.getElem?_eq_getElem hlen) hfree
+
+
+/-! ## several writers: whole registry calls (`Sop.RegistryMW`, what the driver runs against the code)
+
+The block read-modify-write above is the last phase of every call; before it the slot is chosen by
+`findOneFileRegion` WITHOUT the block lock, and nothing looks at the slot again once the lock is held. So for whole
+calls the statement "acknowledged changes of two writers are both there" is false for the code as it is. -/
+
+/-- registry states reachable by sequential single-id calls -/
+def stAfter (c : Cfg) (ops : List (Op V)) : St V := ops.foldl (fun st op => (RegistryMap.step c st op).1) St.init
+
+/-- full-strength statement for two concurrent `Add`s of different ids: if both are acknowledged, both are found -/
+def Statement_C21_two_adds (mc : MCfg) (V : Type) : Prop :=
+  ∀ (ops : List (Op V)) (r1 r2 : Rec V) (sch : List Nat), r1.id ≠ r2.id →
+    let s := RegistryMW.run mc (spawn mc (spawn mc { st := stAfter mc.c ops } .add r1) .add r2) sch
+    result s 0 = some .ok → result s 1 = some .ok →
+      get mc.c s.st r1.id = some r1 ∧ get mc.c s.st r2.id = some r2
+
+/-- ids `0:5` and `0:7` sit in their slots; `0:71` (ideal slot 5) and `0:73` (ideal slot 7) are added by two writers:
+both searches settle on slot 0, the first empty slot. Writer 0 searches and is parked in front of the physical-slot lock;
+writer 1 runs whole (9 calls); writer 0 is granted the slot lock that writer 1 released, locks the block, and writes. -/
+def searchWitnessOps : List (Op Nat) := [.add ⟨(0, 5), 1⟩, .add ⟨(0, 7), 2⟩]
+def searchWitnessSchedule : List Nat := [0, 0] ++ List.replicate 9 1 ++ List.replicate 7 0
+
+theorem C21_unlocked_search_lost_add :
+    let mc : MCfg := { c := { md := 1 } }
+    let s := RegistryMW.run mc (spawn mc (spawn mc { st := stAfter mc.c searchWitnessOps } .add ⟨(0, 71), 3⟩) .add ⟨(0, 73), 4⟩)
+      searchWitnessSchedule
+    result s 0 = some .ok ∧ result s 1 = some .ok ∧ get mc.c s.st (0, 73) = none ∧ get mc.c s.st (0, 71) = some ⟨(0, 71), 3⟩ := by
+  decide +kernel
+
+theorem C21_unlocked_search_counterexample : ¬ Statement_C21_two_adds { c := { md := 1 } } Nat := by
+  intro h
+  have := (h searchWitnessOps ⟨(0, 71), 3⟩ ⟨(0, 73), 4⟩ searchWitnessSchedule (by decide) (by decide +kernel) (by decide +kernel)).2
+  revert this
+  decide +kernel
+
+/-- the seeded change on whole calls: two `UpdateNoLocks` of two present ids of one block, each locking its slot;
+writer 0 is parked between its block read and its block write while writer 1 runs whole: writer 1's acknowledged
+update is reverted. With the block lock the same schedule (writer 1 is refused, retries later) keeps both. -/
+def slotLockWitnessSchedule : List Nat := [0, 0, 0] ++ List.replicate 5 1 ++ [0, 0] ++ List.replicate 5 1
+
+theorem C21_slot_lock_registry_lost_update :
+    let st0 := stAfter { md := 1 } searchWitnessOps
+    let run := fun (perSlot : Bool) =>
+      let mc : MCfg := { c := { md := 1 }, perSlot }
+      RegistryMW.run mc (spawn mc (spawn mc { st := st0 } .set ⟨(0, 5), 10⟩) .set ⟨(0, 7), 20⟩) slotLockWitnessSchedule
+    (result (run true) 0 = some .ok ∧ result (run true) 1 = some .ok ∧
+      get { md := 1 } (run true).st (0, 7) = some ⟨(0, 7), 2⟩ ∧ get { md := 1 } (run true).st (0, 5) = some ⟨(0, 5), 10⟩) ∧
+    (result (run false) 0 = some .ok ∧ result (run false) 1 = some .ok ∧
+      get { md := 1 } (run false).st (0, 7) = some ⟨(0, 7), 20⟩ ∧ get { md := 1 } (run false).st (0, 5) = some ⟨(0, 5), 10⟩) := by
+  decide +kernel
 
 end Sop.C21
